@@ -38,57 +38,7 @@ def zoo():
     return z
 
 
-def build_sparse(ref, model, t, tree, msg):
-    """Assign only what differs from the default (so _fields holds just what was assigned)."""
-    r = ref.resolve(t)
-    if isinstance(r, S.Union):
-        dflt = model.to_tree(t, model.default(t))
-        armname, armval = tree
-        if armname != dflt[0]:
-            msg.discriminator = armname
-        arm = [a for a in r.arms if a.name == armname][0]
-        ar = ref.resolve(arm.type)
-        adflt = model.to_tree(arm.type, model.default(arm.type))
-        if armval != adflt:
-            if isinstance(ar, (S.Struct, S.Union)):
-                build_sparse(ref, model, arm.type, armval, getattr(msg, armname))
-            else:
-                setattr(msg, armname, armval)
-        return msg
-    dflt = model.to_tree(t, model.default(t))
-    for f in ref.fields(r.name):
-        if f.kind in ('counter', 'sizer'):
-            continue
-        val = tree[f.name]
-        if val == dflt[f.name] and not (f.kind == 'bytes' and f.mode != 'fixed'):
-            # (non-fixed bytes are always assigned: an unset one reads the str default, recorded finding F11 of C10)
-            continue
-        if f.kind in ('scalar', 'enum', 'bytes'):
-            setattr(msg, f.name, val)
-        elif f.kind == 'comp':
-            build_sparse(ref, model, f.type, val, getattr(msg, f.name))
-        elif f.kind == 'opt':
-            er = ref.resolve(f.type)
-            if isinstance(er, (S.Struct, S.Union)):
-                setattr(msg, f.name, True)
-                build_sparse(ref, model, f.type, val, getattr(msg, f.name))
-            else:
-                setattr(msg, f.name, val)
-        elif f.kind == 'array':
-            er = ref.resolve(f.type)
-            arr = getattr(msg, f.name)
-            if isinstance(er, (S.Struct, S.Union)):
-                if f.mode == 'fixed':
-                    edflt = model.to_tree(f.type, model.default(f.type))
-                    for i, ev in enumerate(val):
-                        if ev != edflt:
-                            build_sparse(ref, model, f.type, ev, arr[i])
-                else:
-                    for ev in val:
-                        build_sparse(ref, model, f.type, ev, arr.add())
-            else:
-                arr[:] = list(val)
-    return msg
+from ..apimodel import build_sparse  # noqa: E402
 
 
 def values_for(ref, top, tier):
